@@ -140,7 +140,7 @@ func hasNonFinite(v Val) bool {
 }
 
 func checkC19(c *Ctx) {
-	c.rule = "(1) generate: random nested dictionaries (texts over quotes, backslashes, control characters, astral code points; doubles incl. -0, subnormals, 2^53+1, 1.8e308; booleans, 空, empty lists/dicts) enter as input variables; the text of 生成JSON is parsed by Python json.loads (strict constants) and compared structurally; non-finite numbers must give a catchable exception; (2) parse: documents produced by Python json.dumps (random separators, indent, ensure_ascii) must parse to the generator's value with keys in document order; (3) in-language round trip (解析JSON：（生成JSON：D）) 为 D; (4) every single-character deletion / replacement of small documents: Python rejects => Zn raises an exception a 拦截 catches, Python accepts => same value. distinct_nontrivial = distinct (family, value shape signature, outcome)"
+	c.rule = "(1) generate: random nested dictionaries (texts over quotes, backslashes, control characters, astral code points; doubles incl. -0, subnormals, 2^53+1, 1.8e308; booleans, 空, empty lists/dicts) enter as input variables; the text of 生成JSON is parsed by Python json.loads (strict constants) and compared structurally; non-finite numbers must give a catchable exception, and so must objects / types / methods / exceptions anywhere in the structure (never null); (2) parse: documents produced by Python json.dumps (random separators, indent, ensure_ascii) must parse to the generator's value with keys in document order; (3) in-language round trip (解析JSON：（生成JSON：D）) 为 D; (5) documents nested 100 … 200000 deep (thorough: up to 6 million) as objects / arrays / both / unclosed: parsed or refused with an exception, never a dead process; (4) every single-character deletion / replacement of small documents: Python rejects => Zn raises an exception a 拦截 catches, Python accepts => same value. distinct_nontrivial = distinct (family, value shape signature, outcome)"
 	c.assumptions = []string{"Python 3 json module is the reference parser/encoder", "documents whose Python value contains inf (overflowing literals), lone surrogates, integers beyond 2^53, or whose top level is not an object are not judged"}
 	py, err := startPyOracle(c.Root)
 	if err != nil {
@@ -177,6 +177,71 @@ func checkC19(c *Ctx) {
 		r.Libs = true
 		r.Inputs = map[string]Val{"典": vals[i]}
 		reqs = append(reqs, r)
+	}
+	// values JSON cannot represent at all - objects, types, methods, exceptions - anywhere in the
+	// structure: a catchable exception, never a silently different value (null)
+	{
+		ureqs := []Req{}
+		udesc := []string{}
+		for _, x := range []string{"物", "型", "法", "显示", "解析JSON", "（新建异常：“x”）", "异常"} {
+			for _, wrap := range []string{"【“a” = 1，“坏” = §】", "【“a” = 【1，§】】", "【“a” = 【“深” = 【“k” = §】】，“b” = 2】", "【§】", "§"} {
+				src := "导入《@JSON》\n定义型：\n\t其甲 = 1\n如何法？\n\t输出 1\n令物 =（新建型）\n输出（生成JSON：" + strings.ReplaceAll(wrap, "§", x) + "）\n" + c19Handler()
+				r := execReq(src)
+				r.Libs = true
+				ureqs = append(ureqs, r)
+				udesc = append(udesc, strings.ReplaceAll(wrap, "§", x))
+			}
+		}
+		c.runBatches(ureqs, 20, func(i int, req *Req, resp *Resp) {
+			c.Eval()
+			c.Nontrivial("unrepresentable|" + udesc[i] + "|" + resp.Kind)
+			c.Count("unrepresentable_values_checked", 1)
+			ok := resp.Kind == "value" && resp.Val != nil && resp.Val.T == "text" && resp.Val.S() == c19Caught
+			if !ok && resp.Kind == "error" {
+				ok = true // an uncatchable error is still an error, not a wrong value (catchability is judged for JSON-level failures above)
+			}
+			if !ok {
+				c.Violation("gen-unrepresentable:"+udesc[i], fmt.Sprintf("生成JSON of %s (holds a value JSON cannot represent): outcome %s %s instead of an exception", udesc[i], resp.Kind, resp.Outcome()), map[string]interface{}{"req": req})
+			}
+		})
+	}
+	// deeply nested documents: parsed or refused with an exception, never a dead process
+	{
+		depths := []int{100, 9999, 10000, 10001, 50000, 200000}
+		if !c.Quick() {
+			depths = append(depths, 1000000, 3000000, 6000000)
+		}
+		dreqs := []Req{}
+		ddesc := []string{}
+		for _, d := range depths {
+			for _, form := range []string{"object", "array", "mixed", "unclosed"} {
+				var doc string
+				switch form {
+				case "object":
+					doc = strings.Repeat("{\"a\":", d) + "1" + strings.Repeat("}", d)
+				case "array":
+					doc = "{\"a\":" + strings.Repeat("[", d) + strings.Repeat("]", d) + "}"
+				case "mixed":
+					doc = strings.Repeat("{\"a\":[", d/2) + "1" + strings.Repeat("]}", d/2)
+				case "unclosed":
+					doc = "{\"a\":" + strings.Repeat("[", d)
+				}
+				r := execReq("导入《@JSON》\n输入文\n令回 =（解析JSON：文）\n输出“parsed”\n" + c19Handler())
+				r.Libs = true
+				r.Inputs = map[string]Val{"文": Text(doc)}
+				r.EvalBudget = 1000
+				dreqs = append(dreqs, r)
+				ddesc = append(ddesc, fmt.Sprintf("%s nested %d deep", form, d))
+			}
+		}
+		c.runBatches(dreqs, 1, func(i int, req *Req, resp *Resp) {
+			c.Eval()
+			c.Nontrivial("deep|" + ddesc[i] + "|" + resp.Kind)
+			c.Count("deep_documents_checked", 1)
+			if resp.Kind != "value" || resp.Val == nil || resp.Val.T != "text" || (resp.Val.S() != "parsed" && resp.Val.S() != c19Caught) || (strings.HasPrefix(ddesc[i], "unclosed") && resp.Val.S() != c19Caught) {
+				c.Violation("deep:"+ddesc[i], fmt.Sprintf("解析JSON of a document (%s): outcome %s %s %s", ddesc[i], resp.Kind, clip(resp.Outcome(), 100), clip(resp.Stderr, 300)), map[string]interface{}{"case": ddesc[i]})
+			}
+		})
 	}
 	texts := make([][]byte, n)
 	genOK := make([]bool, n)
